@@ -13,7 +13,7 @@ def _one(job):
     r = D.convert(svg, **opts)
     if r[0] == "ok":
         try:
-            pr = D.project(r[1], vb=tuple(d["vb"]), dense=dense)
+            pr = D.project(r[1], vb=tuple(d["vb"]), dense=dense, view=tuple(d.get("view", d["vb"])))
             o = {"k": "ok", "layers": pr["layers"], "notes": pr["notes"]}
         except Exception as e:  # noqa
             o = {"k": "exc", "t": "projection:" + type(e).__name__ + ":" + str(e)[:80]}
